@@ -761,6 +761,136 @@ def system_checks(ctx):
     # (c) first-order and third-order quantities of the scaled lens
     yield _paraxial_seidel(ctx, ctx.n(16, 200))
 
+    # (d) the same rays written in every argument form of trace_generic (Python ints / floats, integer arrays)
+    yield _argument_forms(ctx)
+
+
+def _argument_forms(ctx, seed_mul=31, n_random=3):
+    """Relations of the property for rays whose normalized coordinates are given in every accepted container
+    (chief and rim rays written 0, 1, -1 as Python ints, int64 / int32 arrays, floats): on one live Optic per lens
+    (query in float form, query in the other forms, query in float form again)
+    - launch oracle: the launch record of every ray against the prescription (independent entrance-pupil position,
+      prescribed EPD, field angle / object height), for all-ideal lenses;
+    - scale: every length times s (s = 0.01, 100 and one random), same form on the independently built scaled lens;
+    - mirror about the x axis and about both axes, same form;
+    - form: every form gives the records of the float64-array form."""
+    import c07lib as L
+    warnings.simplefilter('ignore')
+    rng = random.Random(ctx.seed * seed_mul + 13)
+    hist = {'lenses': 0, 'fixed_corpus_lenses': 0, 'random_lenses': 0, 'lenses_with_vignetting_factors': 0,
+            'form': {f: 0 for f in L.ARG_FORMS}, 'relation': {'launch_oracle': 0, 'scale': 0, 'mirror': 0, 'form': 0, 'requery': 0},
+            'object': {'infinite': 0, 'finite': 0}, 'field_type': {}, 'system_aperture': {}, 'field_H': {},
+            'launch_oracle_rays': 0, 'trace_errors': {}, 'scale_factor_s': {'0.01': 0, '100': 0, 'random': 0}}
+    res = {'name': 'argument-forms-of-trace_generic-under-the-relations', 'n': 0, 'nontrivial': 0, 'samples': [],
+           'disagreements': [], 'histogram': hist}
+
+    def bad(relation, spec, form, H, P, d, tol, **kw):
+        if sum(1 for d_ in res['disagreements'] if d_['relation'] == relation) < 3:
+            res['disagreements'].append(dict(relation=relation, argument_form=form, spec=spec, field_H=list(H),
+                                             pupil_points=[list(p) for p in P], discrepancy=d, tolerance=tol,
+                                             violates_property=True, **kw))
+
+    lenses = [(sp, 'corpus') for sp in L.form_corpus() + L.corpus()]
+    for li in range(n_random):
+        sp = L.sym_spec(rng, ideal_only=True, angle_only=(li % 2 == 0))
+        if li % 3 == 2:
+            mf = max(f[0] for f in sp['fields']) or 3.0
+            sp['fields'] = [[0.0, 0.0, 0.0, 0.0], [mf, 0.0, rng.uniform(0.05, 0.3), rng.uniform(0.05, 0.4)]]
+        lenses.append((sp, 'random'))
+    for spec, origin in lenses:
+        try:
+            o = L.build(spec)
+        except Exception:   # noqa
+            continue
+        w = [x for x, p in spec['wavelengths'] if p][0]
+        epl = L.independent_EPL(spec)
+        hist['lenses'] += 1
+        hist['fixed_corpus_lenses' if origin == 'corpus' else 'random_lenses'] += 1
+        hist['lenses_with_vignetting_factors'] += int(any(f[2] or f[3] for f in spec['fields']))
+        hist['object']['infinite' if math.isinf(spec['object_thickness']) else 'finite'] += 1
+        hist['field_type'][spec['field_type']] = hist['field_type'].get(spec['field_type'], 0) + 1
+        hist['system_aperture'][spec['aperture'][0]] = hist['system_aperture'].get(spec['aperture'][0], 0) + 1
+        s_rand = 10 ** rng.uniform(-2, 2)
+        scaled = []
+        for s, lab in ((0.01, '0.01'), (100.0, '100'), (s_rand, 'random')):
+            try:
+                scaled.append((s, lab, L.build(L.scaled_spec(spec, s))))
+            except Exception:   # noqa
+                pass
+        for H, P in (((0, 1), L.PUPIL_FAN), ((0, -1), L.PUPIL_STAR), ((0, 0), L.PUPIL_STAR), ((1, 1), L.PUPIL_STAR)):
+            ref = L.trace_form(o, 'float64_arrays', H, P, w)
+            if ref[0] != 'ok':
+                hist['trace_errors'][ref[1]] = hist['trace_errors'].get(ref[1], 0) + 1
+                continue
+            hist['field_H'][str(H)] = hist['field_H'].get(str(H), 0) + 1
+            for form in L.ARG_FORMS:
+                r = L.trace_form(o, form, H, P, w)
+                if r is None:
+                    continue
+                res['n'] += 1
+                hist['form'][form] += 1
+                if r[0] != 'ok':
+                    # the float form of the same rays traced: the form is accepted by the signature, so it must too
+                    hist['trace_errors'][r[1]] = hist['trace_errors'].get(r[1], 0) + 1
+                    bad('form', spec, form, H, P, INF, 0.0, error=list(r[1:]))
+                    continue
+                if any(_finite(rr[-1]) for rr in r[1]):
+                    res['nontrivial'] += 1
+                # -- every form denotes the same rays
+                d = max(L.rec_diff(a, b, scale=100) for ra, rb in zip(ref[1], r[1]) for a, b in zip(ra, rb))
+                hist['relation']['form'] += 1
+                if not d <= 1e-12:
+                    bad('form', spec, form, H, P, d, 1e-12)
+                # -- the launch of every ray against the prescription
+                if epl is not None:
+                    for p, rr in zip(P, r[1]):
+                        lo = L.launch_oracle(spec, H, p, rr[0], epl)
+                        if lo is None:
+                            continue
+                        hist['launch_oracle_rays'] += 1
+                        if not lo[0] <= 1e-9 * max(1.0, abs(epl)):
+                            bad('launch_oracle', spec, form, H, [p], lo[0], 1e-9, clause=lo[1], launch_record=rr[0],
+                                independent_EPL=epl)
+                            break
+                    hist['relation']['launch_oracle'] += 1
+                # -- every length times s
+                for s, lab, o2 in scaled:
+                    r2 = L.trace_form(o2, form, H, P, w)
+                    if r2[0] != 'ok':
+                        bad('scale', spec, form, H, P, INF, 0.0, s=s, error=list(r2[1:]))
+                        continue
+                    d = max(L.rec_diff(a, L.scale_rec(b, 1.0 / s), fields=['x', 'y', 'z', 'L', 'M', 'N', 'opd'], scale=100)
+                            for ra, rb in zip(r[1], r2[1]) for a, b in zip(ra, rb))
+                    hist['relation']['scale'] += 1
+                    hist['scale_factor_s'][lab] += 1
+                    if not d <= 1e-8:
+                        bad('scale', spec, form, H, P, d, 1e-8, s=s)
+                # -- mirrors (about the x axis; about both axes for a field with an x component)
+                for bx, by in ([(False, True), (True, True)] if H[0] else [(False, True)]):
+                    H1 = (-H[0] if bx else H[0], -H[1] if by else H[1])
+                    P1 = [(-a if bx else a, -b if by else b) for a, b in P]
+                    r1 = L.trace_form(o, form, H1, P1, w)
+                    if r1[0] != 'ok':
+                        bad('mirror', spec, form, H, P, INF, 0.0, mx=bx, my=by, error=list(r1[1:]))
+                        continue
+                    d = max(L.rec_diff(L.mirror_rec(a, bx, by), b) for ra, rb in zip(r[1], r1[1]) for a, b in zip(ra, rb))
+                    hist['relation']['mirror'] += 1
+                    if not d <= 1e-12:
+                        bad('mirror', spec, form, H, P, d, 1e-12, mx=bx, my=by)
+            # -- history: the float form again on the same object after the other forms
+            again = L.trace_form(o, 'float64_arrays', H, P, w)
+            hist['relation']['requery'] += 1
+            if again[0] != 'ok' or again[1] != ref[1]:
+                if not (again[0] == 'ok' and max(L.rec_diff(a, b) for ra, rb in zip(ref[1], again[1]) for a, b in zip(ra, rb)) == 0.0):
+                    bad('requery', spec, 'float64_arrays', H, P, INF, 0.0)
+            if not res['samples']:
+                res['samples'].append({'field_H': list(H), 'pupil_points': [list(p) for p in P],
+                                       'image_record_first_ray_float64_arrays': ref[1][0][-1]})
+    # the clause of the property first: scaled copy, then the prescription oracle, mirrors, equality of the forms
+    order = ['scale', 'launch_oracle', 'mirror', 'form', 'requery']
+    res['disagreements'].sort(key=lambda d_: order.index(d_['relation']))
+    return res
+
 
 def _paraxial_seidel(ctx, nl):
     import numpy as np
